@@ -217,6 +217,18 @@ func Build(r Recipe) interface{} {
 			m[k] = Build(r.Elems[i])
 		}
 		return m
+	case "map[string]user": // every key holds the User of that name
+		m := map[string]User{}
+		for i, k := range r.Keys {
+			m[k] = User{Name: k, Age: i}
+		}
+		return m
+	case "map[string]pair": // every key holds [2]string{key, key}
+		m := map[string][2]string{}
+		for _, k := range r.Keys {
+			m[k] = [2]string{k, k + "!"}
+		}
+		return m
 	case "map[int]string":
 		m := map[int]string{}
 		for i, k := range r.Is {
